@@ -620,14 +620,16 @@ func (fc *fileCtx) hoistFrom(s ast.Stmt, exprs []ast.Expr, start, end token.Pos)
 // the inlined body
 
 type inlPlan struct {
-	h        *helper
-	hfc      *fileCtx // file of the helper
-	rename   map[types.Object]string
-	params   []string // fresh names in signature order (receiver first), "" when unused
-	ptypes   []string
-	rvars    []string
-	rtypes   []string
-	bindArgs []string
+	h      *helper
+	hfc    *fileCtx // file of the helper
+	rename map[types.Object]string
+	// renameSel: replacement when the identifier is the operand of a selector (p.f with p = &x is x.f)
+	renameSel map[types.Object]string
+	params    []string // fresh names in signature order (receiver first), "" when unused
+	ptypes    []string
+	rvars     []string
+	rtypes    []string
+	bindArgs  []string
 }
 
 // typeString prints t as it can be written in the caller's file, or "" when a
@@ -719,6 +721,9 @@ func (fc *fileCtx) substitutable(h *helper, param types.Object, arg ast.Expr) bo
 			return simple(x.X)
 		}
 		return false
+	}
+	if u, isAddr := ast.Unparen(arg).(*ast.UnaryExpr); isAddr && u.Op == token.AND {
+		arg = u.X // &x: `p.f` becomes `x.f`, a bare `p` becomes `(&x)` (see plan)
 	}
 	if !simple(arg) {
 		return false
@@ -865,6 +870,13 @@ func (fc *fileCtx) plan(h *helper, call *ast.CallExpr, at token.Pos) *inlPlan {
 				if o := hinfo.Defs[nm]; o != nil && used[o] {
 					if fc.substitutable(h, o, args[i]) {
 						pl.rename[o] = fc.text(args[i].Pos(), args[i].End())
+						if u, isAddr := ast.Unparen(args[i]).(*ast.UnaryExpr); isAddr && u.Op == token.AND {
+							pl.rename[o] = "(" + pl.rename[o] + ")"
+							if pl.renameSel == nil {
+								pl.renameSel = map[types.Object]string{}
+							}
+							pl.renameSel[o] = fc.text(u.X.Pos(), u.X.End())
+						}
 						name = "-"
 					} else {
 						name = nz.fresh("p")
@@ -943,7 +955,7 @@ func (pl *inlPlan) namedResultDecls(fc *fileCtx) (decls string, names []string, 
 // render returns the helper's source between a and b with the renames applied
 // and (unless keepReturns) every return / top-level defer rewritten.
 func (pl *inlPlan) render(a, b token.Pos, label string, named []string, keepReturns bool) string {
-	return pl.renderWith(a, b, named, keepReturns, func(x *ast.ReturnStmt, vals string, defers string, sub func(x, y token.Pos) string) string {
+	return pl.renderWith(a, b, named, keepReturns, func(x *ast.ReturnStmt, vals string, _ []string, defers string, sub func(x, y token.Pos) string) string {
 		txt := "{ "
 		if vals != "" {
 			txt += strings.Join(pl.rvars, ", ") + " = " + vals + "; "
@@ -955,10 +967,25 @@ func (pl *inlPlan) render(a, b token.Pos, label string, named []string, keepRetu
 // renderWith is render with the replacement of each return statement computed
 // by ret (vals: the rendered result expressions, "" for a helper without
 // results; defers: the calls of the top-level defers that precede the return).
-func (pl *inlPlan) renderWith(a, b token.Pos, named []string, keepReturns bool, ret func(x *ast.ReturnStmt, vals, defers string, sub func(x, y token.Pos) string) string) string {
+func (pl *inlPlan) renderWith(a, b token.Pos, named []string, keepReturns bool, ret func(x *ast.ReturnStmt, vals string, parts []string, defers string, sub func(x, y token.Pos) string) string) string {
 	hfc := pl.hfc
 	hinfo := pl.h.f.Info()
 	var renames []srcEdit
+	selBase := map[*ast.Ident]bool{}
+	starOf := map[*ast.Ident]*ast.StarExpr{}
+	ast.Inspect(pl.h.f.Decl, func(n ast.Node) bool {
+		switch x := n.(type) {
+		case *ast.SelectorExpr:
+			if id, isId := x.X.(*ast.Ident); isId {
+				selBase[id] = true
+			}
+		case *ast.StarExpr:
+			if id, isId := ast.Unparen(x.X).(*ast.Ident); isId {
+				starOf[id] = x
+			}
+		}
+		return true
+	})
 	ast.Inspect(pl.h.f.Decl, func(n ast.Node) bool {
 		id, ok := n.(*ast.Ident)
 		if !ok || id.Pos() < a || id.End() > b {
@@ -969,6 +996,15 @@ func (pl *inlPlan) renderWith(a, b token.Pos, named []string, keepReturns bool, 
 			o = hinfo.Defs[id]
 		}
 		if nn, has := pl.rename[o]; has && o != nil {
+			if alt, hasAlt := pl.renameSel[o]; hasAlt {
+				if selBase[id] {
+					nn = alt
+				} else if st := starOf[id]; st != nil && st.Pos() >= a && st.End() <= b {
+					// *p with p = &x is x
+					renames = append(renames, srcEdit{hfc.off(st.Pos()), hfc.off(st.End()), alt})
+					return true
+				}
+			}
 			renames = append(renames, srcEdit{hfc.off(id.Pos()), hfc.off(id.End()), nn})
 		}
 		return true
@@ -1006,18 +1042,19 @@ func (pl *inlPlan) renderWith(a, b token.Pos, named []string, keepReturns bool, 
 			return false
 		case *ast.ReturnStmt:
 			vals := ""
+			var parts []string
 			switch {
 			case len(pl.rvars) == 0:
 			case len(x.Results) == 0:
 				vals = strings.Join(named, ", ")
+				parts = named
 			default:
-				var rs []string
 				for _, r := range x.Results {
-					rs = append(rs, sub(r.Pos(), r.End()))
+					parts = append(parts, sub(r.Pos(), r.End()))
 				}
-				vals = strings.Join(rs, ", ")
+				vals = strings.Join(parts, ", ")
 			}
-			stmts = append(stmts, srcEdit{hfc.off(x.Pos()), hfc.off(x.End()), ret(x, vals, deferCalls(x.Pos()), sub)})
+			stmts = append(stmts, srcEdit{hfc.off(x.Pos()), hfc.off(x.End()), ret(x, vals, parts, deferCalls(x.Pos()), sub)})
 			return false
 		}
 		return true
@@ -1182,7 +1219,88 @@ func (fc *fileCtx) inlineSite(cs *callSite) (string, bool) {
 		contText = fc.text(cont.Lbrace, cont.Rbrace+1)
 	}
 	hinfo := h.f.Info()
-	body := pl.renderWith(h.f.Body.Lbrace+1, h.f.Body.Rbrace, named, false, func(x *ast.ReturnStmt, vals, defers string, sub func(x, y token.Pos) string) string {
+	// flat mode: every return of the helper is either a certain failure (which continues into a copy of
+	// the caller's error branch) or the final statement with a nil error. Then no jump is needed, the
+	// body is spliced into the caller's block and the last return becomes the caller's own assignment:
+	// exactly the code as it was before the helper was extracted.
+	if cont != nil && direct && cs.lhs != nil {
+		flat := true
+		var last ast.Stmt
+		if n := len(h.f.Body.List); n > 0 {
+			last = h.f.Body.List[n-1]
+		}
+		ast.Inspect(h.f.Body, func(n ast.Node) bool {
+			switch x := n.(type) {
+			case *ast.FuncLit:
+				return false
+			case *ast.ReturnStmt:
+				if len(x.Results) != len(targets) {
+					flat = false
+					return false
+				}
+				e := x.Results[cs.errIdx]
+				if ast.Stmt(x) == last && isNilIdent(hinfo, e) {
+					return false
+				}
+				if isNilIdent(hinfo, e) || h.f.mayBeNilError(e) {
+					flat = false
+				}
+				return false
+			}
+			return flat
+		})
+		if _, isRet := last.(*ast.ReturnStmt); !isRet {
+			flat = false
+		}
+		if flat {
+			var newDecl, useNew []string
+			for i, l := range cs.lhs {
+				id := l.(*ast.Ident)
+				if cs.tok == token.DEFINE && id.Name != "_" && info.Defs[id] != nil {
+					newDecl = append(newDecl, "var "+id.Name+" "+pl.rtypes[i])
+					useNew = append(useNew, id.Name)
+				}
+			}
+			lhsText := fc.text(cs.lhs[0].Pos(), cs.lhs[len(cs.lhs)-1].End())
+			body := pl.renderWith(h.f.Body.Lbrace+1, h.f.Body.Rbrace, named, false, func(x *ast.ReturnStmt, vals string, parts []string, defers string, sub func(x, y token.Pos) string) string {
+				if ast.Stmt(x) == last {
+					// `x, err := v, nil`: a short declaration infers types from the values, so constants and
+					// nil are given the helper's result types explicitly
+					typed := make([]string, len(parts))
+					for i, pt := range parts {
+						typed[i] = pt
+						if tv, has := hinfo.Types[x.Results[i]]; has && (tv.IsNil() || tv.Value != nil) {
+							typed[i] = "(" + pl.rtypes[i] + ")(" + pt + ")"
+						}
+					}
+					return lhsText + " " + cs.tok.String() + " " + strings.Join(typed, ", ") + "; " + defers
+				}
+				t := "{ "
+				for _, d := range newDecl {
+					t += d + "; "
+				}
+				t += strings.Join(targets, ", ") + " = " + vals + "; "
+				for _, u := range useNew {
+					t += "_ = " + u + "; "
+				}
+				return t + defers + nz.lineDir(cont.Lbrace) + contText + nz.lineDir(x.End()) + "}"
+			})
+			var b strings.Builder
+			b.WriteString(nz.lineDir(cs.at))
+			b.WriteString(pl.bindings())
+			b.WriteString(ndecls)
+			b.WriteString(nz.lineDir(h.f.Body.Lbrace))
+			b.WriteString(body)
+			b.WriteString(nz.lineDir(cs.at))
+			for _, u := range useNew {
+				b.WriteString("_ = " + u + "\n")
+			}
+			b.WriteString("_ = 0")
+			nz.inlined[h.f.Name]++
+			return b.String(), true
+		}
+	}
+	body := pl.renderWith(h.f.Body.Lbrace+1, h.f.Body.Rbrace, named, false, func(x *ast.ReturnStmt, vals string, parts []string, defers string, sub func(x, y token.Pos) string) string {
 		if cont != nil && len(x.Results) == len(targets) {
 			e := x.Results[cs.errIdx]
 			switch {
